@@ -17,7 +17,8 @@ reference (crossing order) and of every caller-owned message.
   ev reset | ev sub <lossy> <mask> | ev subi <mask> / ev subli <mask> (backpressure / lossy subscriber with the include filter `token is even`)
   ev send <ADD|UPDATE|REMOVE|REPLACE> <id> <old|-> <new|->   (values named by their tokens: the new one is stored in a new message cell, the old one looked up)
   ev poll <i>   (the consumer of the lossy Collection subscriber i takes the event its Pull goroutine holds: `#<ref>:<event>` or `-`)
-  ev vsub <lossy> <mask> <seed> | ev vsend <new> | ev vpoll <i>     (subscribers / writes / lossy consumers of a resource.Value; events print as UPDATE,0,-,<new>; vpoll answers `seed` first for a subscriber that asked for one)
+  ev vstore <tok> | ev vsub <lossy> <mask> <current tok|-> | ev vsend <new> | ev vpoll <i>     (initial value / subscribers / writes / lossy consumers of a resource.Value; events print as UPDATE,0,-,<new>[,L]; a subscriber given the current token is owed a seed)
+  ev seed <i> <id> <tok> <last>   (Collection subscriber i is owed a seed for item id)
   ev audit      (`seen=<contents of every event seen>|vals=<which message objects they carry, numbered by identity>`)
      (event objects and their values, Events.lean + EventVals.lean: after a send everything runs until it blocks — every backpressure subscriber forwards,
       every lossy one merges in / drops the older pointer and its Pull goroutine pumps; the answer to a send lists, per backpressure subscriber,
